@@ -5,9 +5,6 @@ CONSTANTS
   MaxSrcs = 3
   MaxAnmLen = 2
 INVARIANT StepInv
-INVARIANT LastWins
-INVARIANT InOrder
-INVARIANT HeaderRule
-INVARIANT Outcome
+INVARIANT Property
 INVARIANT Export
 CHECK_DEADLOCK FALSE
